@@ -357,3 +357,14 @@ func init() {
 	mutant("append-header-field-dropped", "enc-entry-points", "hpack.go", "	h.rawHeaders = hp.AppendHeader(h.rawHeaders, hf, store)\n", "	_ = hp.AppendHeader(h.rawHeaders, hf, store)\n")
 	mutant("size-update-pattern", "enc-entry-points", "hpack.go", "		dst = appendInt(append(dst, 0x20), 5, uint64(hp.maxTableSize))", "		dst = appendInt(append(dst, 0x20), 4, uint64(hp.maxTableSize))")
 }
+
+func init() {
+	mutant("uppercase-range-open", "text-primitives", "strings.go", "		if c >= 'A' && c <= 'Z' {\n			return true", "		if c > 'A' && c <= 'Z' {\n			return true")
+	mutant("uppercase-either", "text-primitives", "strings.go", "		if c >= 'A' && c <= 'Z' {\n			return true", "		if c >= 'A' || c <= 'Z' {\n			return true")
+	mutant("parseuint-nine-not-a-digit", "text-primitives", "strings.go", "		if c < '0' || c > '9' {", "		if c < '0' || c >= '9' {")
+	mutant("parseuint-overflow-divisor", "text-primitives", "strings.go", "		if n > (maxInt-int(c-'0'))/10 {", "		if n > (maxInt-int(c-'0'))/11 {")
+	mutant("parseuint-accumulates-wrong", "text-primitives", "strings.go", "		n = n*10 + int(c-'0')", "		n = n*10 - int(c-'0')")
+	mutant("parseuint-empty-is-zero", "text-primitives", "strings.go", "	if len(b) == 0 {\n		return 0, errInvalidUint\n	}\n\n	n := 0", "	n := 0")
+	mutant("status-999-becomes-500", "text-primitives", "strings.go", "	if code < 100 || code > 999 {", "	if code < 100 || code >= 999 {")
+	mutant("status-table-short", "text-primitives", "strings.go", "	for i := 100; i < 1000; i++ {", "	for i := 101; i < 1000; i++ {")
+}
